@@ -1125,14 +1125,16 @@ struct Engine {
         break;
       }
       case 4: {  // comparisons
-        set_op("compare", sts, szrel, fmt("P%d ? P%d", ai, bi));
+        // one time in four the vector is compared with itself: identity is not equality when an element is not equal to itself (NaN)
+        const bool self = rng.chance(1, 4);
+        set_op("compare", self ? st(a) : sts, self ? "self" : szrel, fmt("P%d ? P%d", ai, self ? ai : bi));
         bool r[6] = {0, 0, 0, 0, 0, 0};
         window([&] {
-          const Vec &x = *a.obj, &y = *b.obj;
+          const Vec &x = *a.obj, &y = self ? *a.obj : *b.obj;
           r[0] = x == y; r[1] = x != y; r[2] = x < y; r[3] = x <= y; r[4] = x > y; r[5] = x >= y;
         });
         MonScope m;
-        const std::vector<Val> &x = a.model, &y = b.model;
+        const std::vector<Val> &x = a.model, &y = self ? a.model : b.model;
         bool e[6] = {x == y, x != y, x < y, x <= y, x > y, x >= y};
         for (int i = 0; i < 6; ++i)
           if (!threw && r[i] != e[i]) { violation("C01", "model.comparison", fmt("comparison operator #%d gives %d, std::vector gives %d", i, r[i], e[i])); break; }
